@@ -778,6 +778,13 @@ namespace ip {
 			m_bytes_in_flight -= it->second;
 			m_outstanding_packet_sizes.erase(it);
 		}
+		// the notification callback was consumed by this report; the
+		// retransmission needs one too
+		std::shared_ptr<aux::sink_forwarder> fwd = m_forwarder;
+		p.drop_fun = [fwd](aux::packet pkt) {
+			if (auto* s = static_cast<tcp::socket*>(fwd->dst()))
+				s->packet_dropped(std::move(pkt));
+		};
 		m_outgoing_packets.push_back(std::move(p));
 
 		const int packets_in_cwnd = m_cwnd / m_mss;
